@@ -98,6 +98,7 @@ func (r *remoteKeySet) VerifySignature(ctx context.Context, jws *jose.JSONWebSig
 	if err != nil {
 		return nil, err
 	}
+	simYield(ctx, "verify.miss")
 	return r.verifySignatureRemote(ctx, jws, keyID, alg)
 }
 
@@ -169,6 +170,7 @@ func (r *remoteKeySet) keysFromRemote(ctx context.Context) ([]jose.JSONWebKey, e
 	ctx, span := client.Tracer.Start(ctx, "keysFromRemote")
 	defer span.End()
 
+	simYield(ctx, "remote.enter")
 	// Need to lock to inspect the inflight request field.
 	r.mu.Lock()
 	// If there's not a current inflight request, create one.
@@ -182,6 +184,7 @@ func (r *remoteKeySet) keysFromRemote(ctx context.Context) ([]jose.JSONWebKey, e
 	}
 	inflight := r.inflight
 	r.mu.Unlock()
+	simYield(ctx, "remote.wait")
 
 	select {
 	case <-ctx.Done():
@@ -195,10 +198,13 @@ func (r *remoteKeySet) updateKeys(ctx context.Context) {
 	ctx, span := client.Tracer.Start(ctx, "updateKeys")
 	defer span.End()
 
+	simYield(ctx, "update.enter")
 	// Sync keys and finish inflight when that's done.
 	keys, err := r.fetchRemoteKeys(ctx)
+	simYield(ctx, "update.fetched")
 
 	r.inflight.done(keys, err)
+	simYield(ctx, "update.window")
 
 	// Lock to update the keys and indicate that there is no longer an
 	// inflight request.
